@@ -332,12 +332,14 @@ string read_all(FILE* f) {
   for (;;) {
     buffers.emplace_back(read_size, 0);
     ssize_t bytes_read = ::fread(buffers.back().data(), 1, read_size, f);
-    if (bytes_read < 0) {
-      throw io_error(fileno(f));
-    }
 
     total_size += bytes_read;
     if (bytes_read < read_size) {
+      // fread never returns a negative count: a short count means either end
+      // of file or a read error, and only the stream's error flag tells which
+      if (ferror(f)) {
+        throw io_error(fileno(f), "cannot read from stream");
+      }
       buffers.back().resize(bytes_read);
       break;
     }
